@@ -79,7 +79,8 @@ def a_tok(a):
 
 def prog_items(p):
     """top-level items of the rendered program, in source order"""
-    out = ["@global %s, DIR, ZZ;" % ", ".join("g%d" % i for i in range(p["ng"]))]
+    # the last p["plain"] model globals are left undeclared: plain (implicit) variables of the same name
+    out = ["@global %s;" % ", ".join(["g%d" % i for i in range(p["ng"] - p.get("plain", 0))] + ["DIR", "ZZ"])]
     for (name, spec, nl, body) in p["funs"]:
         params = ", ".join(("&" if s == "r" else "") + "a%d" % i for i, s in enumerate(spec))
         lcl = ("@local %s; " % ", ".join("l%d" % i for i in range(nl))) if nl else ""
@@ -105,7 +106,7 @@ def prog_pieces(p, k):
 
 
 def prog_lines(p):
-    out = ["prog %d" % p["ng"]]
+    out = ["prog %d %d" % (p["ng"], p.get("plain", 0))]
     for (name, spec, nl, body) in p["funs"]:
         out.append("fun %s %s %d" % (name, spec or "-", nl))
         out += [a_tok(a) for a in body]
@@ -203,7 +204,7 @@ def gen_body(rng, nargs, nl, names, specs, site, in_block=False):
     return body
 
 
-def gen_prog(rng, nextra=None):
+def gen_prog(rng, nextra=None, plain=0):
     site = itertools.count(1)
     funs = base_funs(site)
     nextra = rng.randrange(1, 5) if nextra is None else nextra
@@ -222,6 +223,8 @@ def gen_prog(rng, nextra=None):
         funs.append((name, spec, nl, gen_body(rng, len(spec), nl, mine, specs, site)))
     callable_ = base_callable + [s2[0] for s2 in sigs]
     p = dict(ng=NG, funs=funs)
+    if plain:
+        p["plain"] = plain
     if rng.random() < 0.8:
         nl = rng.randrange(0, 2)
         p["begin"] = (nl, gen_body(rng, 0, nl, callable_, specs, site, in_block=True))
@@ -241,6 +244,7 @@ def gen_history(rng, p, n, nctx=NCTX):
     latched = [False] * nctx               # a guess: exit/halt seen and no loop since
     hkind = [dict() for _ in range(nctx)]   # handle -> 'str' | 'map'
     arity = {f[0]: len(f[1]) for f in p["funs"]}
+    ndecl = p["ng"] - p.get("plain", 0)      # hawk_rtx_setgbl/getgbl reach declared globals only
     exits = {f[0] for f in p["funs"] if any(a[0] == "exit" for a in f[3])} | {"quit2"}
     names = list(arity)
     for c in range(nctx):
@@ -275,8 +279,8 @@ def gen_history(rng, p, n, nctx=NCTX):
                 ops.append("call %d mput h:%d %s %s" % (c, m, arg(c), arg(c)))
             else:
                 ops.append(("call %d %s %s" % (c, f, " ".join(arg(c) for _ in range(na)))).rstrip())
-        elif k < 0.64: ops.append("setgbl %d %d %s" % (c, rng.randrange(NG), arg(c)))
-        elif k < 0.71: ops.append("getgbl %d %d" % (c, rng.randrange(NG)))
+        elif k < 0.64: ops.append("setgbl %d %d %s" % (c, rng.randrange(ndecl), arg(c)))
+        elif k < 0.71: ops.append("getgbl %d %d" % (c, rng.randrange(ndecl)))
         elif k < 0.74: ops.append("loop %d" % c); latched[c] = False
         elif k < 0.75: ops.append("exec %d" % c); latched[c] = False
         elif k < 0.765: ops.append("halt %d" % c); latched[c] = True
@@ -291,10 +295,10 @@ def gen_history(rng, p, n, nctx=NCTX):
         elif k < 0.98:
             ops.append("close %d" % c); isopen[c] = False; hkind[c] = {}
         else:
-            ops.append("getgbl %d %d" % (c, rng.randrange(NG)))
+            ops.append("getgbl %d %d" % (c, rng.randrange(ndecl)))
     for c in range(nctx):
         if isopen[c]:
-            for g in range(NG):
+            for g in range(ndecl):
                 ops.append("getgbl %d %d" % (c, g))
             ops.append("close %d" % c)
     return ops
@@ -539,7 +543,7 @@ def case_runs(env, case):
             runs.append(["new"] + head_lines(case.p, awk) + [o for o in case.ops if op_ctx(o) == c] + ["fin"]); meta.append(("proj", c))
     else:
         awk0 = write_prog(env, case.p0, case.np0)
-        reset = {"clear": ["clear"], "parsebad": ["parsebad /nonexistent/x.awk"], "none": [], "both": ["clear", "parsebad /nonexistent/y.awk", "clear"]}[case.how]
+        reset = reset_lines(env, case.how)
         runs.append(["new"] + head_lines(case.p0, awk0) + case.ops0 + reset + head_lines(case.p, awk) + case.ops + ["fin"]); meta.append(("inter", None))
         runs.append(["new"] + head_lines(case.p, awk) + case.ops + ["fin"]); meta.append(("fresh", None))
     return runs, meta
@@ -573,7 +577,7 @@ def judge_case(case, runs, meta, results):
         for j in range(max(len(a), len(b))):
             if j >= len(a) or j >= len(b) or a[j] != b[j]:
                 return "a reset and re-parsed interpreter behaves differently from a fresh one (reset by %s): line %r: reused %r vs fresh %r" % (
-                    case.how, runs[1][len(runs[1]) - n + j] if j < n else None, a[j] if j < len(a) else None, b[j] if j < len(b) else None)
+                    how_text(case.how), runs[1][len(runs[1]) - n + j] if j < n else None, a[j] if j < len(a) else None, b[j] if j < len(b) else None)
     return None
 
 
@@ -609,6 +613,11 @@ def check_cases(env, cases, model=True, workers=8, per_batch=24):
         if model and r["prop"] is None:
             co = [a for a, b in results[0][1]][:len(runs[0])]
             mo = mres.get(ci, [])
+            if case.p.get("plain") or (case.p0 or {}).get("plain"):
+                # a look-up of a plain variable that does not exist yet leaves HAWK_ENOENT in the sticky error
+                # number (hawk_htb_search); the model keeps plain variables in global slots and does not follow
+                # that: the error number is compared only where an operation failed
+                co, mo = [norm_err(x) for x in co], [norm_err(x) for x in mo]
             d = C.diff_streams(co, mo)
             if d is not None:
                 r["corr"] = "line %d %r: impl %r vs model %r" % (d, runs[0][min(d, len(runs[0]) - 1)], co[d] if d < len(co) else None, mo[d] if d < len(mo) else None)
@@ -616,18 +625,111 @@ def check_cases(env, cases, model=True, workers=8, per_batch=24):
     return out
 
 
+IDENT_POOL = ["g0", "g1", "g2", "l0", "l1", "a0", "a1", "a2", "getg", "setg", "byref", "u0", "u1", "pr", "DIR", "ZZ", "pv", "NRx"]
+
+
+def gen_broken(rng, donor):
+    """a source that does NOT parse: a prefix of valid top-level items of `donor` (so that globals and
+    functions have already been accepted) followed by an item that fails at a chosen syntactic position.
+    The identifiers it introduces before failing are the ones later programs use as globals, locals,
+    parameters, functions and plain variables. -> dict(items=[..], inc=None|text)"""
+    items = prog_items(donor)
+    k = rng.randrange(0, len(items) + 1)
+    pre = items[:k] if rng.random() < 0.7 else []
+    names = lambda n: ", ".join(rng.sample(IDENT_POOL, n))
+    kind = rng.choice(["glist", "glist", "glist", "llist", "fhead", "fhead2", "include", "body", "string", "junk", "dupfun"])
+    inc = None
+    if kind == "glist":        # inside an @global list after some names were accepted
+        bad = ["@global %s, %s;" % (names(rng.randrange(1, 4)), rng.choice(["1", "+", '"s"', "", "function"]))]
+    elif kind == "llist":      # inside an @local list
+        bad = ["function zz(%s) { @local %s, 1; return 1; }" % (names(rng.randrange(0, 3)), names(rng.randrange(1, 3)))]
+    elif kind == "fhead":      # inside a function header after parameters were accepted
+        bad = ["function %s(%s, &) { return 1; }" % (rng.choice(["zz", "getq", "pv"]), names(rng.randrange(1, 3)))]
+    elif kind == "fhead2":
+        bad = ["@global %s;" % names(2), "function zz(%s, , a9) { }" % names(1)]
+    elif kind == "include":    # after an include that itself declared globals and a function
+        inc = "@global %s;\nfunction incf(a0) { @local l0; l0 = a0; return (l0 \"i\"); }\n" % names(2)
+        bad = ['@include "%(INC)s";', "@global %s, 1;" % names(2)]
+    elif kind == "body":
+        bad = ["@global %s;" % names(1), "function zz(a0) { @local l0; l0 = ( ; }"]
+    elif kind == "string":
+        bad = ['BEGIN { %s = "unterminated ; }' % rng.choice(["g1", "pv", "l0"])]
+    elif kind == "dupfun":
+        bad = ["function getq(a0) { return a0; }", "function getq(a1) { return a1; }"]
+    else:
+        bad = ["@global %s; function f( { }" % names(2)]
+    return dict(items=pre + bad, inc=inc, kind=kind)
+
+
+def norm_err(line):
+    if " err=" not in line or " ret=NULL " in line:
+        return line
+    a, b = line.split(" err=", 1)
+    return a + " err=*" + (" " + b.split(" ", 1)[1] if " " in b else "")
+
+
 def gen_reparse(rng):
-    p0 = gen_prog(rng)
-    p = gen_prog(rng)
+    p0 = gen_prog(rng, plain=rng.choice([0, 0, 1]))
+    p = gen_prog(rng, plain=rng.choice([0, 1, 2, 2]))
     if rng.random() < 0.5:
         # make the second program smaller: functions and BEGIN/END of the first must be gone
-        p = dict(ng=NG, funs=[f for f in p["funs"] if rng.random() < 0.6 or f[0] in ("getg", "setg")])
+        keep = {"getg", "setg"}
+        funs = [f for f in p["funs"] if rng.random() < 0.6 or f[0] in keep]
+        have = {f[0] for f in funs}
+        p2 = dict(ng=NG, funs=funs)        # calls to dropped functions become run-time EFUNNF: fine
+        if p.get("plain"):
+            p2["plain"] = p["plain"]
+        p = p2
     ops0 = gen_history(rng, p0, rng.randrange(3, 14), nctx=2)     # ends with every context closed
     ops = gen_history(rng, p, rng.randrange(3, 14), nctx=2)
     # the sources come in several pieces, more for the first program than for the second most of the time
     np0 = rng.choice([1, 2, 3, 4])
     np = rng.choice([1, 1, 2]) if rng.random() < 0.7 else rng.choice([2, 3, 5])
-    return Case("reparse", p, ops, p0=p0, ops0=ops0, how=rng.choice(["clear", "clear", "parsebad", "none", "both"]), np=np, np0=np0)
+    # what happens between the two programs: resets and parses that FAIL, in any mix
+    steps = []
+    for _ in range(rng.choice([0, 1, 1, 2, 3])):
+        k = rng.random()
+        if k < 0.25: steps.append(["clear"])
+        elif k < 0.35: steps.append(["missing"])
+        else: steps.append(["broken", gen_broken(rng, rng.choice([p0, p])), rng.choice([1, 1, 2])])
+    return Case("reparse", p, ops, p0=p0, ops0=ops0, how=steps, np=np, np0=np0)
+
+
+OLD_HOW = {"clear": [["clear"]], "parsebad": [["missing"]], "none": [], "both": [["clear"], ["missing"], ["clear"]]}
+
+
+def reset_lines(env, how):
+    """protocol lines for the steps between the two programs; broken sources are written to scratch files"""
+    if isinstance(how, str):
+        how = OLD_HOW[how]
+    out = []
+    for st in how or []:
+        if st[0] == "clear":
+            out.append("clear")
+        elif st[0] == "missing":
+            out.append("parsebad /nonexistent/x.awk")
+        else:
+            b, npieces = st[1], st[2]
+            d = env.scratch()
+            incpath = os.path.join(d, "inc.awk")
+            if b.get("inc"):
+                open(incpath, "w").write(b["inc"])
+            items = [it % dict(INC=incpath) if "%(INC)s" in it else it for it in b["items"]]
+            k = max(1, min(npieces, len(items)))
+            cuts = [round(i * len(items) / k) for i in range(k + 1)]
+            paths = []
+            for i in range(k):
+                path = os.path.join(d, "b%d.awk" % i)
+                open(path, "w").write("\n".join(items[cuts[i]:cuts[i + 1]]) + "\n")
+                paths.append(path)
+            out.append("parsebad " + " ".join(paths))
+    return out
+
+
+def how_text(how):
+    if isinstance(how, str):
+        return how
+    return "+".join(st[0] if st[0] != "broken" else "failed-parse[%s]" % st[1].get("kind", "?") for st in how) or "nothing"
 
 
 def fixed_prog():
@@ -702,7 +804,14 @@ def shrink(env, case, fails):
 def replay_text(env, case, r, note):
     import json
     txt = ["# C09 " + note, "# JSON case (program + ops) — replay with: ./check C09 --replay <this file>", "#JSON " + json.dumps(case.to_json())]
-    txt.append("# awk program (%d source piece(s)%s):" % (case.np, (", first program %d" % case.np0) if case.kind == "reparse" else ""))
+    txt.append("# awk program (%d source piece(s)%s):" % (case.np, (", first program %d; between the two programs: %s" % (case.np0, how_text(case.how))) if case.kind == "reparse" else ""))
+    if case.kind == "reparse" and not isinstance(case.how, str):
+        for st in case.how or []:
+            if st[0] == "broken":
+                txt.append("#   source that fails to parse (%s):" % st[1].get("kind"))
+                txt += ["#     " + l for it in st[1]["items"] for l in it.splitlines()]
+                if st[1].get("inc"):
+                    txt += ["#     include file %(INC)s:"] + ["#       " + l for l in st[1]["inc"].splitlines()]
     txt += ["#   " + l for l in prog_awk(case.p).splitlines()]
     txt.append("# op | implementation | model")
     run0 = r["runs"][0]
@@ -745,9 +854,9 @@ def run(ctx):
     ncorpus = len(cases)
     cases += exhaustive_cases(full=not quick)
     for _ in range(140 if quick else 2500):
-        p = gen_prog(rng)
+        p = gen_prog(rng, plain=rng.choice([0, 0, 0, 1, 2]))
         cases.append(Case("inter", p, gen_history(rng, p, rng.randrange(6, 45), nctx=rng.choice([2, 3, 3])), np=rng.choice([1, 1, 2, 3])))
-    for _ in range(30 if quick else 400):
+    for _ in range(60 if quick else 600):
         cases.append(gen_reparse(rng))
     results = check_cases(env, cases, model=True)
     evaluations = sum(len(r["runs"][0]) for r in results)
@@ -800,13 +909,13 @@ def run(ctx):
     nontriv = len({(prog_awk(c.p), tuple(c.ops)) for c, r in zip(cases, results) if c.kind == "inter" and nontrivial(c, r["results"])})
     samples = [" ; ".join(c.ops[:9]) for c in cases[ncorpus + 5:ncorpus + 6] + cases[-40:-38] + cases[-2:-1]]
     return C.finish(ctx, [proof], evaluations, nontriv,
-                    "cases = corpus + every length-3 sequence over a %d-op alphabet on two contexts of a fixed program + seeded random programs (23 library functions: global-derived value, global setter, run-time failure, exit direct and nested, by-reference parameters, map mutation, console+file output, close, getline, recursion to ESTACK, undefined callee, too many arguments, script-level calls that copy by-reference parameters back to globals/locals/parameters/$0 incl. a copy-back rejected after the callee returned; plus 1-4 random functions, random BEGIN/END) with random interleavings of open/call/loop/exec/setgbl/getgbl/halt/mkstr/mkmap/drop/show/close over 2-3 contexts + reset/re-parse sequences (clear, failed parse, plain re-parse) with different programs whose sources come in 1-5 pieces of differing counts; "
+                    "cases = corpus + every length-3 sequence over a %d-op alphabet on two contexts of a fixed program + seeded random programs (23 library functions: global-derived value, global setter, run-time failure, exit direct and nested, by-reference parameters, map mutation, console+file output, close, getline, recursion to ESTACK, undefined callee, too many arguments, script-level calls that copy by-reference parameters back to globals/locals/parameters/$0 incl. a copy-back rejected after the callee returned; plus 1-4 random functions, random BEGIN/END) with random interleavings of open/call/loop/exec/setgbl/getgbl/halt/mkstr/mkmap/drop/show/close over 2-3 contexts + reset/re-parse sequences with different programs whose sources come in 1-5 pieces of differing counts and, in between, any mix of hawk_clear, a missing source and sources that FAIL to parse at chosen positions (inside @global / @local lists after names were accepted, inside function headers, after an @include that declared names, in a body, in a string) introducing the identifiers later programs use as globals, locals, parameters, functions and plain variables; "
                     "each interleaving is run on the real code interleaved AND as per-context projections on fresh interpreters (observations incl. reference counts, exit level, stack height, rio chain, NR, console, files, live blocks per context must be identical), and the interleaved run is compared line by line with the Lean driver; "
                     "distinct_nontrivial = distinct interleavings where at least two contexts ran a function body and a call failed at run time or exited with a later call on the same context" % (12 if quick else 17),
                     samples, extra_cov=dict(op_distribution=dist, call_outcomes=outcomes, cases=len(cases), impl_status=status,
                                             reparse_cases=sum(1 for c in cases if c.kind == "reparse")),
                     trusted=["run.c/hawk.c API paths modelled by hand in HawkModel/Ctx.lean over an abstract action language (expressions: literals, variables, $0, NR, concatenation, length); pattern-action blocks, pipes, getline from files, modules and the garbage collector are not modelled",
-                             "rendering of abstract programs to awk text (vlib/props/c09.py) and the hidden globals DIR/ZZ",
+                             "rendering of abstract programs to awk text (vlib/props/c09.py) and the hidden globals DIR/ZZ; plain (undeclared) variables are kept in global slots by the model, and for programs that use them the sticky error number is compared only on failing operations (a miss in the named-variable table leaves HAWK_ENOENT behind)",
                              "model clears dead stack slots and ignores variable references outside the frame (unobservable; the parser never produces them)"],
                     assumptions=["interleaving at API-call granularity from one thread; true thread-level concurrency (data races on call->u.fun.fun, hawk->haltall) is out of scope",
                                  "the application follows the API contract: one refdown per returned value, values used only with the context that made them, contexts closed before hawk_clear/hawk_parse",
